@@ -17,7 +17,7 @@ CJ(st)        == { j \in Jobs : Committed(j) /\ js[j] = st }
 \* Scenarios of recorded findings (constant Avoid of BatchDB, guards inside the actions):
 \*   "ooc"      an update is committed while an earlier update of the batch is still open
 \*   "toctou"   commit_batch_update runs after the root group was cancelled (cancel between pre-check and procedure)
-\*   "uncchild" a job completes while a child of it exists in an update that is not committed
+\*   ("uncchild", a job completing while a child of it exists in an update that is not committed, was repaired by migration 123)
 \*   "pendrel"  an attempt ends while its instance is still pending
 
 \* ---- types ------------------------------------------------------------------------------------------------------
